@@ -417,4 +417,15 @@ def documents(draw, min_docs=4, max_docs=8):
         if draw(st.integers(0, 11)) == 0:
             svg = '<?xml version="1.0" encoding="UTF-8"?>\n' + svg
         docs.append({"name": f"gen{i}({kind})", "svg": svg, "opts": _opts(draw, b["has_text"], b["unknown"])})
+    if draw(st.integers(0, 2)) == 0:
+        # a document whose default namespace is not SVG and whose SVG elements are prefixed: what a
+        # converter does with the un-namespaced attributes must not depend on what it saw before
+        vb = draw(st.sampled_from(VIEWBOXES))
+        pref = draw(st.sampled_from(["s", "svg"]))
+        other = draw(st.sampled_from(["http://www.w3.org/1999/xhtml", "urn:example:host"]))
+        psvg = (
+            f'<{pref}:svg xmlns:{pref}="{SVGNS}" xmlns="{other}" viewBox="{vb}">'
+            f'<{pref}:rect x="2" y="3" width="10" height="8" fill="red"/><{pref}:path d="{draw(st.sampled_from(PATHS))}" fill="blue"/></{pref}:svg>'
+        )
+        docs.insert(draw(st.integers(0, len(docs))), {"name": "prefixed-svg-namespace", "svg": psvg, "opts": {}})
     return docs
